@@ -164,6 +164,27 @@ func RunClosed[K any](k *kinds.Kind[K], cfg *Config, res *ev.Result, u kinds.Uni
 						}
 					}
 				}
+				if cfg.Has(MRange) && k.HasRange {
+					// all ordered pairs of bounds over the universe (present and absent alike)
+					for _, a := range u.Keys {
+						for _, b := range u.Keys {
+							s.CheckRange(a, b, "closed_all_pairs")
+							if s.Dead {
+								return
+							}
+						}
+					}
+				}
+				if cfg.Has(MPrefix) && k.HasPrefix {
+					for _, key := range u.Keys {
+						for _, p := range k.PrefixQueries(r, key) {
+							s.CheckPrefix(p, "closed_derived")
+							if s.Dead {
+								return
+							}
+						}
+					}
+				}
 				d := structDigest(s.dump())
 				res.Distinct(d)
 				if !seen[d] {
